@@ -282,11 +282,15 @@ pub struct IoOpts {
     /// (only for histories: in watch sessions the version-stamp oracle is not defined for a
     /// script that reads its own previous output)
     pub own_output_inside_input_pct: usize,
+    /// length of the common prefix of the "long" target names a project gets now and then
+    /// (0 = 150: records still fit in a directory entry; 247 and more: they do not, nothing can
+    /// be recorded for such targets and nothing may be written under a shortened name either)
+    pub long_name_len: usize,
 }
 
 impl Default for IoOpts {
     fn default() -> Self {
-        IoOpts { multi_project_pct: 40, max_targets: 5, cmd_pct: 25, cmd_output_pct: 0, own_output_inside_input_pct: 0 }
+        IoOpts { multi_project_pct: 40, max_targets: 5, cmd_pct: 25, cmd_output_pct: 0, own_output_inside_input_pct: 0, long_name_len: 0 }
     }
 }
 
@@ -342,7 +346,7 @@ pub fn gen_io(rng: &mut Rng, o: &IoOpts) -> Scenario {
     // which projects can reference which (through the import relation, transitively loaded)
     let can_ref = |from: usize, to: usize, projects: &Vec<Project>| -> bool { from == to || projects[from].imports.iter().any(|i| i.1 == to) || (from == 0 && projects.iter().any(|_| true) && to > 0) };
     let total = rng.range(2, o.max_targets.max(2));
-    let long_names = rng.chance(3);
+    let long_names = rng.chance(if o.long_name_len == 0 { 3 } else { 12 });
     let mut files: Vec<FileSpec> = vec![];
     let mut vars = BTreeMap::new();
     // targets are created bottom-up: later targets may consume earlier ones; higher projects
@@ -352,7 +356,7 @@ pub fn gen_io(rng: &mut Rng, o: &IoOpts) -> Scenario {
         let pi = if np == 1 { 0 } else { (np - 1) - (k * np / total).min(np - 1) };
         // reuse target names across projects on purpose; now and then a project's names are
         // long and differ only at the very end
-        let name = if long_names { format!("{}_t{}", "l".repeat(150), projects[pi].targets.len()) } else { format!("t{}", projects[pi].targets.len()) };
+        let name = if long_names { format!("{}_t{}", "l".repeat(if o.long_name_len == 0 { 150 } else { o.long_name_len }), projects[pi].targets.len()) } else { format!("t{}", projects[pi].targets.len()) };
         let kind = match rng.weighted(&[88, 6, 6]) {
             1 => Kind::Service,
             2 => Kind::Aggregate,
